@@ -98,7 +98,7 @@ func GenFlowCase(g *mon.RNG, proto string, o GenOpts) *FlowCase {
 			if ts[i].Options {
 				k = SetOptTemplate
 			}
-			s := Set{Kind: k, Templates: ts[i:j]}
+			s := Set{Kind: k, Templates: append([]*Template{}, ts[i:j]...)} // own copy: c.Templates changes on redefinition
 			if proto == "ipfix" && g.Chance(1, 4) {
 				s.Pad = g.Intn(8)
 			}
@@ -147,7 +147,22 @@ func GenFlowCase(g *mon.RNG, proto string, o GenOpts) *FlowCase {
 		var exp [][]ExpField
 		nSets := 1 + g.Intn(4)
 		for si := 0; si < nSets; si++ {
-			t := c.Templates[g.Intn(len(c.Templates))]
+			ti := g.Intn(len(c.Templates))
+			t := c.Templates[ti]
+			if si > 0 && g.Chance(1, 6) {
+				// the exporter redefines this template id in the middle of the message: every later set of
+				// that id, in this and in later messages, uses the new definition
+				nt := GenTemplate(g, t.ID, o)
+				ts := tplSets([]*Template{nt})
+				l := SetLen(&ts[0])
+				if used+l < budget {
+					used += l
+					sets = append(sets, ts[0])
+					c.Templates[ti] = nt
+					t = nt
+					desc += "|REDEF"
+				}
+			}
 			k := 1 + g.Intn(4)
 			if g.Chance(1, 8) {
 				k = 1 + g.Intn(40)
